@@ -72,7 +72,9 @@ def run(eng, tier, seed):
                else [m for m in range(2 ** k) if bin(m).count('1') >= k - 1 or m % 211 == 0])
     try:
         for m in subsets:
-            root = os.path.join(tmp, 't%d' % m)
+            # every second tree is built at ONE re-used location: "any package tree" includes a tree that replaces another one at the
+            # same place within one process (a resolver that remembers what it saw there earlier answers for the wrong tree)
+            root = os.path.join(tmp, 't%d' % m) if (m & 1) else os.path.join(tmp, 'same')
             os.makedirs(root)
             for j, rel in enumerate(OPTIONAL):
                 if m >> j & 1:
@@ -104,6 +106,37 @@ def run(eng, tier, seed):
                 if problem is not None:
                     cex = {'files': [rel for j, rel in enumerate(OPTIONAL) if m >> j & 1], 'name': name, 'problem': problem.replace(root, '<root>')}
                     break
+            if cex is None:
+                # every module file of the tree, asked directly: the directory that must be on the search path is the nearest ancestor
+                # WITHOUT an __init__.py (known from the construction of the tree, not from the file system), the rest is the relative path
+                present = set(rel for j, rel in enumerate(OPTIONAL) if m >> j & 1)
+                for rel in sorted(present):
+                    if not rel.endswith('.py'):
+                        continue
+                    d, base = os.path.split(rel)
+                    parts = [base]
+                    while d and (d + '/__init__.py') in present:
+                        d, dn = os.path.split(d)
+                        parts.append(dn)
+                    exp_dpath = os.path.join(root, d) if d else root
+                    exp_rel = os.path.join(*parts[::-1])
+                    stem = exp_rel[:-len('.py')]
+                    if base == '__init__.py':
+                        stem = os.path.dirname(exp_rel)
+                    exp_name = stem.replace(os.sep, '.')
+                    full = os.path.join(root, rel)
+                    n += 1
+                    try:
+                        got_split = tuple(ui.split_modpath(full))
+                        got_name = ui.modpath_to_modname(full, hide_init=True, hide_main=False)
+                    except Exception as ex:      # noqa
+                        got_split, got_name = 'raised %r' % (ex,), None
+                    if got_split != (exp_dpath, exp_rel) or got_name != exp_name:
+                        cex = {'files': sorted(present), 'path': rel,
+                               'problem': ('split_modpath(<root>/%s) = %r, modpath_to_modname = %r; by construction of the tree the search '
+                                           'directory is %r, the relative path %r and the name %r'
+                                           % (rel, got_split, got_name, exp_dpath, exp_rel, exp_name)).replace(root, '<root>')}
+                        break
             shutil.rmtree(root, ignore_errors=True)
             for key in [k_ for k_ in sys.path_importer_cache if k_.startswith(root)]:
                 del sys.path_importer_cache[key]        # keep the finder cache from growing with every scratch tree
@@ -113,5 +146,5 @@ def run(eng, tier, seed):
         shutil.rmtree(tmp, ignore_errors=True)
     return {'bounded': [{'name': 'C17.resolution-vs-interpreter',
                          'bound': '%d scratch trees (subsets of %d optional entries) x %d dotted names on the real modname_to_modpath / '
-                                  'modpath_to_modname / split_modpath, oracle importlib.machinery.PathFinder' % (len(list(subsets)), k, len(all_names)),
+                                  'modpath_to_modname / split_modpath, oracle importlib.machinery.PathFinder; every second tree replaces the previous one at the same location' % (len(list(subsets)), k, len(all_names)),
                          'evaluations': n, 'counterexample': cex}]}
